@@ -91,6 +91,8 @@ FAMILY = dict(
           dict(quick=120, thorough=2500), ["C05"], nidl=True),
         G("C05b", BASE3, ["Authorize", "Nid", "Remove", "GenCerts", "GenNear", "KeyKind"], 10,
           dict(quick=60, thorough=1000), ["C05"], nidl=False),
+        G("C05d", BASE3, ["Authorize", "Nid", "Remove", "Remove", "GenCerts", "GenNear"], 12,
+          dict(quick=40, thorough=800), ["C05"], nidl=True, so=True),
         G("C05c", BASE3, ["Authorize", "Nid", "Remove", "GenCerts", "GenNear"], 10,
           dict(quick=50, thorough=1000), ["C05"], nidl=True, nide=True),
         G("C10a", BASE3S, ["Authorize", "Nid", "Prev", "Remove", "Rotate", "RotNear", "Strip"], 12,
